@@ -5,6 +5,10 @@ import numpy as np
 A = np.array
 
 
+# members that RSOME may refuse loudly (raise while formulating): a refusal is allowed, a wrong program is not
+MAY_RAISE = {'adaptive_abs', 'adaptive_abs_rhs', 'adaptive_slice_abs'}
+
+
 def members():
     M = {}
 
@@ -202,6 +206,103 @@ def members():
         a.minsup(a.E(a.maxof(1.5 * (x - z), 2.0 * (z - x))), F)
         a.st(a.ge(x, 0.0))
         a.st(a.le(x, 4.0))
+
+    @reg
+    def expectation_equality(a):
+        """E(...) == affine is an EQUALITY (both directions are enforced)."""
+        p = a.scen(2)
+        x = a.dvar(())
+        y = a.dvar(())
+        z = a.rvar(())
+        a.aff(y, z)
+        F = a.ambiguity()
+        a.supp(F, None, a.ge(z, 0.0), a.le(z, 2.0))
+        a.expt(F, None, a.eq(a.Ez(z), 1.0))
+        a.minsup(a.E(x + 0.25 * y), F)
+        a.st(a.eq(a.E(y), x))
+        a.st(a.ge(y, z))
+        a.st(a.le(y, 6.0))
+        a.st(a.ge(x, -4.0))
+        a.st(a.le(x, 4.0))
+
+    @reg
+    def expectation_sum(a):
+        """E(y).sum() is the sum of expectations, not a robust sum."""
+        p = a.scen(2)
+        t = a.dvar(())
+        y = a.dvar(2)
+        z = a.rvar(2)
+        a.aff(y, z)
+        F = a.ambiguity()
+        a.supp(F, None, a.ge(z, -1.0), a.le(z, 1.0))
+        a.expt(F, None, a.eq(a.Ez(z), 0.0))
+        a.minsup(a.E(t), F)
+        a.st(a.le(a.E(y).sum(), t))
+        a.st(a.ge(y, z))
+        a.st(a.le(y, 4.0))
+        a.st(a.ge(t, -4.0))
+
+    @reg
+    def adaptive_equality_own_set(a):
+        """An equality on an affinely adaptive decision with its OWN ambiguity set (not the default one)."""
+        p = a.scen(1)
+        x = a.dvar(())
+        y = a.dvar(())
+        z = a.rvar(())
+        a.aff(y, z)
+        F = a.ambiguity()
+        a.supp(F, None, a.ge(z, 0.0), a.le(z, 2.0))
+        G = a.ambiguity()
+        a.supp(G, None, a.eq(z, 1.0))
+        a.minsup(a.E(x), F)
+        a.st(a.ge(y, 3.0 * z))
+        a.st(a.eq(y, 2.0 * x), forall=G)
+        a.st(a.le(y, 10.0))
+        a.st(a.ge(y, -10.0))
+        a.st(a.ge(x, -5.0))
+
+    @reg
+    def adaptive_abs(a):
+        """A convex function of an affinely adaptive decision: |y(z)| <= c must hold for every z (or be refused)."""
+        p = a.scen(1)
+        x = a.dvar(())
+        y = a.dvar(())
+        z = a.rvar(())
+        a.aff(y, z)
+        F = a.ambiguity()
+        a.supp(F, None, a.ge(z, -1.0), a.le(z, 1.0))
+        a.maxinf(a.E(y - 3.0 * z + 0.0 * x), F)
+        a.st(a.le(a.abs(y), 1.0))
+        a.st(a.ge(x, 0.0))
+        a.st(a.le(x, 1.0))
+
+    @reg
+    def adaptive_abs_rhs(a):
+        """... and on the affine side of a convex constraint: |x| <= y(z) for every z."""
+        p = a.scen(1)
+        x = a.dvar(())
+        y = a.dvar(())
+        z = a.rvar(())
+        a.aff(y, z)
+        F = a.ambiguity()
+        a.supp(F, None, a.ge(z, -1.0), a.le(z, 1.0))
+        a.maxinf(a.E(x + 0.0 * y), F)
+        a.st(a.le(a.abs(x), y))
+        a.st(a.le(y, 1.0 + z))
+
+    @reg
+    def adaptive_slice_abs(a):
+        """The same with the adaptation declared through a slice, y[0].adapt(z)."""
+        p = a.scen(1)
+        y = a.dvar(2)
+        z = a.rvar(())
+        a.aff(y, z, 0)
+        F = a.ambiguity()
+        a.supp(F, None, a.ge(z, -1.0), a.le(z, 1.0))
+        a.maxinf(a.E(y[0] - 3.0 * z + 0.0 * y[1]), F)
+        a.st(a.le(a.abs(y[0:1]), 1.0))
+        a.st(a.ge(y[1], 0.0))
+        a.st(a.le(y[1], 1.0))
 
     @reg
     def deterministic_dro(a):
